@@ -82,7 +82,7 @@ def run_case(case: dict) -> dict:
     net2.add_node(consn)
     pmap = prod.tpdo[1]
     pmap.cob_id = case["pcob"]
-    pmap.enabled = True
+    pmap.enabled = case.get("penabled", True)      # transmit() does not ask whether the map is enabled
 
     # objs[i]: number of the object mapped into slot i (an object may be mapped more than once)
     objs = case.get("objs") or list(range(len(lay)))
@@ -164,6 +164,20 @@ def run_case(case: dict) -> dict:
             pm.cob_id, pm.enabled, pm.rtr_allowed = op["cob"], op["enabled"], op["rtr"]
             pm.subscribe()
             ev.append({"e": "recfg", "k": op["k"], "cob": op["cob"], "enabled": op["enabled"], "rtr": op["rtr"]})
+        elif o == "pen":
+            pmap.enabled = op["v"]
+            ev.append({"e": "pen", "v": op["v"]})
+        elif o == "remap":
+            # one consumer map is mapped anew (nothing is received meanwhile): the other maps keep what they hold
+            pm = cmaps[op["k"] - 1]
+            e = {"e": "remap", "k": op["k"], "ok": True}
+            try:
+                pm.clear()
+                add_vars(pm)
+            except Exception as exc:  # noqa
+                e["ok"], e["repr"] = False, repr(exc)[:100]
+            e["cons"] = cons_proj()
+            ev.append(e)
         elif o == "rtr":
             del frames[:]
             before = bytes(pmap.data)
